@@ -48,11 +48,10 @@ Section fin.
     (∀ c, c ∈ comps outs → c_at c = st_now s' ∧ rlock c) → NoDup (c_wid <$> comps outs) →
     TI L T W U D → Forall2 WR W (t_waiters t0) →
     ef (st_now s') (t_holds t0) = t_holds t0 → t_now t0 = st_now s' → t_pending t0 = [] →
-    (multi_grant (comps outs) → X i "C03:not-fifo"%string) →
     TR X cfg s' (t_completions cfg i cause outs t0).
   Proof.
-    intros HL HX Hc Hnd HT HW Ea En Ep HM.
-    eapply TR_transfer; [|apply t_completions_transfer|exact HM].
+    intros HL HX Hc Hnd HT HW Ea En Ep.
+    eapply TR_transfer; [|apply t_completions_transfer].
     - apply (LR_TR X cfg s' _ HL); [| | |exact HX].
       + apply (ef_done_list X); [intros c Hcc; by apply Hc|done].
       + by rewrite done_list_now.
@@ -60,18 +59,16 @@ Section fin.
     - apply (sorted_same_time _ (st_now s')). intros c Hcc. by apply Hc.
     - done.
     - intros c Hcc. by apply Hc.
-    - by eapply WR_coh.
   Qed.
 
   (** ** srv_unlock of a live pair *)
   Lemma srv_unlock_live_ok cause n k s s' u e o outs t :
     Inv cfg s → st_shut s = false → TR X cfg s t → SeqDefs.live s n k →
     srv_unlock cfg n k s = (s', (u, e), o) → comps outs = comps o →
-    (multi_grant (comps outs) → X i "C03:not-fifo"%string) →
     u = true ∧ e = None ∧ (∀ x, x ∈ o → ∃ w key, x = OWaiter w (st_now s) (RLock true key None) ∧ key ≠ k) ∧
     TR X cfg s' (t_completions cfg i cause outs (drop_hold n k t)).
   Proof.
-    intros HI Hsh HT Hlive Hu Hco HM. pose proof (Inv_STI _ _ HI) as HTI.
+    intros HI Hsh HT Hlive Hu Hco. pose proof (Inv_STI _ _ HI) as HTI.
     pose proof (TR_LR _ _ _ _ HI Hsh HT) as HL. pose proof (TR_alive _ _ _ _ HI Hsh HT) as Hal.
     unfold srv_unlock in Hu.
     set (s0 := s <| st_timers := delete (tkey n k) (st_timers s) |>) in *.
@@ -96,7 +93,7 @@ Section fin.
         rewrite lookup_delete_ne; [done|]. intros [En Ek]%tkey_inj. rewrite <- En, <- Ek, !bool_decide_eq_true_2 in Hf by done. done. }
     assert (STI s0 []) as HTI0 by (by apply TI_timer_delete).
     destruct (mgr_unlock_LR cfg i cause X n k s0 s1 r o1 [(n, k)] (drop_hold n k t) Hm HTI0) as
-      (-> & HL1 & HX1 & En1 & Hnl1 & Hcs & _ & Hnd & _); [left|done|exact (tr_fail _ _ _ _ HT)|].
+      (-> & HL1 & HX1 & En1 & Hnl1 & Hcs & _ & Hnd & _); [left|done|exact (tr_fail _ _ _ _ HT)|exact (tr_pending _ _ _ _ HT)|].
     injection Hu as <- <- <- <-. rewrite Dminus_self in HL1. split; [done|]. split; [done|]. split.
     { intros x Hx. destruct Hlive as (ob & Hob & Hk).
       eapply mgr_unlock_live in Hm as [_ [[-> _]|(w & rest & Hw & _ & -> & _)]]; [by apply elem_of_nil in Hx| |exact Hob|exact Hk].
@@ -113,7 +110,6 @@ Section fin.
     - by rewrite rle_now, En1.
     - rewrite rle_now, En1. apply (tr_now _ _ _ _ HT).
     - apply (tr_pending _ _ _ _ HT).
-    - by rewrite <- Hco.
   Qed.
 
   (** ** srv_unlock of a dead pair: refused, nothing changes for the oracle *)
@@ -144,13 +140,12 @@ Section fin.
   Lemma track_unlock_ok sid n k s s' u e o t :
     Inv cfg s → st_shut s = false → TR X cfg s t →
     srv_unlock cfg n k s = (s', (u, e), o) →
-    (multi_grant (comps (o ++ [OResp (RUnlock u e)])) → X i "C03:not-fifo"%string) →
-    TR X cfg s' (track_step cfg i (EUnlock sid n k) (o ++ [OResp (RUnlock u e)]) t).
+    TR X cfg s' (track_step0 cfg i (EUnlock sid n k) (o ++ [OResp (RUnlock u e)]) t).
   Proof.
-    intros HI Hsh HT Hu HM. simpl. destruct (live_dec s n k) as [Hl|Hl].
+    intros HI Hsh HT Hu. simpl. destruct (live_dec s n k) as [Hl|Hl].
     - destruct (TR_live_some _ _ _ _ HT _ _ Hl) as (h & Hlh & _).
       edestruct (srv_unlock_live_ok None n k s s' u e o (o ++ [OResp (RUnlock u e)]) t) as (-> & -> & Ho & HT');
-        [done..|apply comps_resp_tail|done|].
+        [done..|apply comps_resp_tail|].
       rewrite first_resp_tail by (intros x Hx; destruct (Ho x Hx) as (w & key & -> & _); eauto). unfold t_unlock. simpl. rewrite Hlh. exact HT'.
     - destruct (srv_unlock_dead_ok n k s s' u e o t HI HT Hl Hu) as (-> & -> & HT' & He). simpl.
       unfold t_unlock. simpl. rewrite ?live_flag, (TR_live_none _ _ _ _ HT _ _ Hl). simpl.
@@ -167,10 +162,9 @@ Section fin.
   Lemma track_ipc_key_ok n k s s' o t :
     Inv cfg s → st_shut s = false → TR X cfg s t →
     ipc_unlock_with cfg n k s = (s', o) →
-    (multi_grant (comps o) → X i "C03:not-fifo"%string) →
-    TR X cfg s' (track_step cfg i (EIpcUnlock n (Some k)) o t).
+    TR X cfg s' (track_step0 cfg i (EIpcUnlock n (Some k)) o t).
   Proof.
-    intros HI Hsh HT Hu HM. unfold ipc_unlock_with in Hu. destruct (srv_unlock cfg n k s) as [[s1 [u e]] o1] eqn:Hs.
+    intros HI Hsh HT Hu. unfold ipc_unlock_with in Hu. destruct (srv_unlock cfg n k s) as [[s1 [u e]] o1] eqn:Hs.
     simpl. destruct (live_dec s n k) as [Hl|Hl].
     - destruct (TR_live_some _ _ _ _ HT _ _ Hl) as (h & Hlh & _).
       assert (comps o = comps o1) as Hco by (destruct e; injection Hu as <- <-; apply comps_ipc_tail).
@@ -209,13 +203,12 @@ Section fin.
   Lemma track_cancel_ok wid s s' o t :
     Inv cfg s → st_shut s = false → TR X cfg s t →
     cancel_waiters (λ w, bool_decide (w_id w = wid)) ECtxCanceled s = (s', o) →
-    (multi_grant (comps o) → X i "C03:not-fifo"%string) →
-    TR X cfg s' (track_step cfg i (ECancel wid) o t).
+    TR X cfg s' (track_step0 cfg i (ECancel wid) o t).
   Proof.
-    intros HI Hsh HT Hc HM. simpl. pose proof (Inv_STI _ _ HI) as HTI.
+    intros HI Hsh HT Hc. simpl. pose proof (Inv_STI _ _ HI) as HTI.
     destruct (cancel_waiters_ok _ s s' o t [] [] HTI (TR_LR _ _ _ _ HI Hsh HT) (tr_fail _ _ _ _ HT) Hc)
       as (HL & HX & _ & _ & _ & En & _ & _ & _ & _ & _ & Hcs & Hnd).
-    eapply (finish_event _ s' o t _ _ _ _ _ HL HX _ Hnd HTI (tr_waiters _ _ _ _ HT)); [| | |exact HM].
+    eapply (finish_event _ s' o t _ _ _ _ _ HL HX _ Hnd HTI (tr_waiters _ _ _ _ HT)).
     - rewrite En. by eapply TR_alive.
     - rewrite En. apply (tr_now _ _ _ _ HT).
     - apply (tr_pending _ _ _ _ HT).
@@ -226,10 +219,9 @@ Section fin.
   Lemma track_shutdown_ok s s' o t :
     Inv cfg s → st_shut s = false → TR X cfg s t →
     shutdown cfg s = (s', o) →
-    (multi_grant (comps o) → X i "C03:not-fifo"%string) →
-    TR X cfg s' (track_step cfg i EShutdown o t).
+    TR X cfg s' (track_step0 cfg i EShutdown o t).
   Proof.
-    intros HI Hsh HT Hs HM. simpl. pose proof (Inv_STI _ _ HI) as HTI. unfold shutdown in Hs.
+    intros HI Hsh HT Hs. simpl. pose proof (Inv_STI _ _ HI) as HTI. unfold shutdown in Hs.
     destruct (cancel_waiters _ _ _) as [s1 o1] eqn:Hc. injection Hs as <- <-.
     pose proof (TR_LR _ _ _ _ HI Hsh HT) as HL0.
     change (LR s [] t) with (LR (s <| st_shut := true |>) [] t) in HL0.
@@ -239,7 +231,7 @@ Section fin.
     assert (TR X cfg s1 (t_completions cfg i (Some ECtxCanceled) o1 t)) as [H1 H2 H3 H4 H5].
     { assert (∀ c, c ∈ comps o1 → c_at c = st_now s1 ∧ rlock c) as Hcs'.
       { intros c Hcc. destruct (Hcs c Hcc) as (? & ? & _). by rewrite En. }
-      eapply (finish_event _ s1 o1 t _ _ _ _ _ HL HX Hcs' Hnd HTI (tr_waiters _ _ _ _ HT)); [| | |exact HM].
+      eapply (finish_event _ s1 o1 t _ _ _ _ _ HL HX Hcs' Hnd HTI (tr_waiters _ _ _ _ HT)).
       - rewrite En. by eapply TR_alive.
       - rewrite En. apply (tr_now _ _ _ _ HT).
       - apply (tr_pending _ _ _ _ HT). }
